@@ -60,18 +60,22 @@ func c11Erase(ops []hop) []hop {
 	return out
 }
 
-// one history, the stream it produced, and its twin
-func c11Emit(ho, ro *out, id *int, c hcase) { c11EmitOpt(ho, ro, id, c, true) }
+// one history, the stream it produced (all readers), and its twin
+func c11Emit(ho, ro *out, id *int, c hcase) { c11EmitOpt(ho, ro, id, c, true, true) }
 
-// full=false: the history alone (the longest exhaustive layer of the thorough tier)
-func c11EmitOpt(ho, ro *out, id *int, c hcase, full bool) {
+// twin=false: the history alone (the longest exhaustive layer of the thorough tier);
+// read=false: the produced stream is not handed to the readers
+func c11EmitOpt(ho, ro *out, id *int, c hcase, twin, read bool) {
 	c.logEach = true
 	*id++
-	if !full {
+	if read {
+		runAndRead(ho, ro, *id, c, true)
+	} else {
 		runHistory(ho, *id, c)
+	}
+	if !twin {
 		return
 	}
-	runAndRead(ho, ro, *id, c, true)
 	t := c
 	t.ops = c11Erase(c.ops)
 	t.tag = "twin"
@@ -259,7 +263,8 @@ func init() {
 						c.ops = append(c.ops, c11Op(r, s))
 					}
 					c.ops = append(c.ops, hop{op: 'R'})
-					c11EmitOpt(ho, ro, &id, c, len(h) <= 4)
+					// every second stream of this (highly repetitive) layer goes to the readers
+					c11EmitOpt(ho, ro, &id, c, len(h) <= 4, len(h) <= 4 && id%4 == 0)
 				}
 				ins := func(base []byte, pos int, sym byte) []byte {
 					out := make([]byte, 0, len(base)+1)
